@@ -1,9 +1,125 @@
-import LSProofs.Wf
-/-! # C01 — placeholder while the refinement development is being written (see DESIGN 4.4) -/
+import LSProofs.TextSpec
+import LSProofs.Props.C03
+/-!
+# C01 — every operation behaves exactly like `String` on the same value
+
+`World.text w h` is what handle `h` reads (`as_bytes`), whatever its storage (inline, borrowed
+static, shared or unshared heap block with stale bytes behind it). `Spec.*` (LSModel/Spec.lean) are
+the `String` methods on valid UTF-8 byte lists, with std's panic conditions; a popped / removed
+`char` is given as its UTF-8 bytes. Each theorem holds from **every well-formed world** — and every
+world reached by any finite history is well-formed (`reachable_wf`), for any number of handles, any
+allocator behaviour `rf`: so it holds at every step of every history, on every storage state and
+however that state was reached. The `SameAs` alternative is the allocation-failure outcome (C05).
+-/
 namespace LS.C01
 open LS
 
-theorem init_wf (st : List Bytes) (hst : ∀ t ∈ st, Valid t ∧ t.length ≤ STATIC_MAX_LEN) :
-    Wf { statics := st } := wf_init st hst
+/-- all worlds reached by a history are well-formed: the per-operation theorems below apply at
+every step of every history -/
+theorem reachable_wf (rf : Refuse) (st : List Bytes) (hst : ∀ t ∈ st, Valid t ∧ t.length ≤ STATIC_MAX_LEN)
+    (ops : List Op) (hv : ∀ op ∈ ops, op.ArgsValid) : Wf (run rf { statics := st } ops) :=
+  C03.run_wf rf ops _ (wf_init st hst) hv
+
+theorem push_str (rf : Refuse) (w : World) (h : Nat) (t s : Bytes) (plain : Bool) (hw : Wf w)
+    (ht : w.text h = some t) (hs : Valid s) :
+    ((step rf w (.pushStr h s plain)).2 = .ok .unit ∧ (step rf w (.pushStr h s plain)).1.text h = some (Spec.push_str t s)) ∨
+    ((step rf w (.pushStr h s plain)).2 = failOut plain ∧ SameAs w (step rf w (.pushStr h s plain)).1 h) :=
+  pushStr_refines hw ht s hs plain
+
+theorem pop (rf : Refuse) (w : World) (h : Nat) (t : Bytes) (plain : Bool) (hw : Wf w) (ht : w.text h = some t) :
+    (step rf w (.pop h plain)).2 = .ok (match (Spec.pop t).1 with | none => Val.none | some c => Val.some c) ∧
+    (step rf w (.pop h plain)).1.text h = some (Spec.pop t).2 :=
+  let ⟨a, b, _⟩ := pop_refines (rf := rf) hw ht plain; ⟨a, b⟩
+
+theorem truncate (rf : Refuse) (w : World) (h : Nat) (t : Bytes) (n : Nat) (plain : Bool) (hw : Wf w)
+    (ht : w.text h = some t) :
+    match Spec.truncate t n with
+    | .ok _ t' => (step rf w (.truncate h n plain)).2 = .ok .unit ∧ (step rf w (.truncate h n plain)).1.text h = some t' ∧
+        (step rf w (.truncate h n plain)).1.heap = w.heap
+    | .panic => step rf w (.truncate h n plain) = (w, .panicIdx) :=
+  truncate_refines hw ht n plain
+
+theorem remove (rf : Refuse) (w : World) (h : Nat) (t : Bytes) (i : Nat) (plain : Bool) (hw : Wf w)
+    (ht : w.text h = some t) :
+    match Spec.remove t i with
+    | .ok c t' =>
+      ((step rf w (.remove h i plain)).2 = .ok (.char c) ∧ (step rf w (.remove h i plain)).1.text h = some t') ∨
+      ((step rf w (.remove h i plain)).2 = failOut plain ∧ SameAs w (step rf w (.remove h i plain)).1 h)
+    | .panic => step rf w (.remove h i plain) = (w, .panicIdx) :=
+  remove_refines hw ht i plain
+
+theorem insert_str (rf : Refuse) (w : World) (h : Nat) (t : Bytes) (i : Nat) (s : Bytes) (plain : Bool) (hw : Wf w)
+    (ht : w.text h = some t) (hs : Valid s) :
+    match Spec.insert_str t i s with
+    | .ok _ t' =>
+      ((step rf w (.insertStr h i s plain)).2 = .ok .unit ∧ (step rf w (.insertStr h i s plain)).1.text h = some t') ∨
+      ((step rf w (.insertStr h i s plain)).2 = failOut plain ∧ SameAs w (step rf w (.insertStr h i s plain)).1 h)
+    | .panic => step rf w (.insertStr h i s plain) = (w, .panicIdx) :=
+  insertStr_refines hw ht i s hs plain
+
+theorem clear (rf : Refuse) (w : World) (h : Nat) (t : Bytes) (hw : Wf w) (ht : w.text h = some t) :
+    (step rf w (.clear h)).2 = .ok .unit ∧ (step rf w (.clear h)).1.text h = some [] :=
+  clear_refines hw ht
+
+theorem retain (rf : Refuse) (w : World) (h : Nat) (t : Bytes) (answers : List (Option Bool)) (plain : Bool)
+    (hw : Wf w) (ht : w.text h = some t) :
+    ((step rf w (.retain h answers plain)).2 = (if (retainScan t.length t answers []).2 then .panicCb else .ok .unit) ∧
+      (step rf w (.retain h answers plain)).1.text h = some (retainScan t.length t answers []).1) ∨
+    ((step rf w (.retain h answers plain)).2 = failOut plain ∧ SameAs w (step rf w (.retain h answers plain)).1 h) :=
+  retain_refines hw ht answers plain
+
+theorem reserve (rf : Refuse) (w : World) (h : Nat) (t : Bytes) (n : Nat) (plain : Bool) (hw : Wf w)
+    (ht : w.text h = some t) :
+    (step rf w (.reserve h n plain)).1.text h = some t := by
+  rcases reserve_refines (rf := rf) hw ht n plain with ⟨_, h2, _⟩ | ⟨_, _, h2, _⟩
+  · exact h2
+  · rw [h2]; exact ht
+
+theorem shrink_to (rf : Refuse) (w : World) (h : Nat) (t : Bytes) (m : Nat) (plain : Bool) (hw : Wf w)
+    (ht : w.text h = some t) :
+    (step rf w (.shrinkTo h m plain)).1.text h = some t := by
+  rcases shrinkTo_refines (rf := rf) hw ht m plain with ⟨_, h2⟩ | ⟨_, _, h2, _⟩
+  · exact h2
+  · rw [h2]; exact ht
+
+/-- constructors: `from(&str)` reads back its argument (or fails to allocate, leaving no handle) -/
+theorem from_str (rf : Refuse) (w : World) (d : Nat) (t : Bytes) (plain : Bool) (hw : Wf w)
+    (hd : w.get d = none) (hv : Valid t) :
+    ((step rf w (.fromStr d t plain)).2 = .ok .unit ∧ (step rf w (.fromStr d t plain)).1.text d = some t) ∨
+    ((step rf w (.fromStr d t plain)).2 = failOut plain ∧ (step rf w (.fromStr d t plain)).1.get d = none) := by
+  simp only [step, hd, Option.isSome_none, Bool.false_eq_true, if_false]
+  rcases fromStr_fresh (st := w.statics) (linv_empty hw hd) rf t hv with ⟨hp1, he, hs⟩ | ⟨hp1, r, he, g⟩
+  · rw [he]; right; exact ⟨rfl, hd⟩
+  · rw [he]; left; exact ⟨rfl, text_put_self g⟩
+
+/-- `clone`: the copy reads the source's text -/
+theorem clone (rf : Refuse) (w : World) (d s : Nat) (t : Bytes) (hw : Wf w) (hd : w.get d = none)
+    (ht : w.text s = some t) :
+    (step rf w (.clone d s)).2 = .ok .unit ∧ (step rf w (.clone d s)).1.text d = some t ∧
+    (step rf w (.clone d s)).1.text s = some t := by
+  obtain ⟨r, hg, g⟩ := good_of_text hw ht
+  have hne : s ≠ d := by intro e; subst e; rw [hd] at hg; cases hg
+  have hpost := step_post rf hw (.clone d s) trivial
+  have hfr := hpost.2.2 s hne
+  refine ⟨?_, ?_, by rw [hfr.2]; exact ht⟩
+  · simp only [step, hd, hg, Option.isSome_none, Bool.false_eq_true, if_false]
+    cases r <;> simp [shallowClone, Heap.retain]
+    rename_i a l
+    obtain ⟨b, hb, _⟩ := g.ok
+    simp [hb]
+  · -- the two handles have the same two words and the source's block keeps its bytes
+    have hgd : (step rf w (.clone d s)).1.get d = some r := by
+      simp only [step, hd, hg, Option.isSome_none, Bool.false_eq_true, if_false]
+      cases r with
+      | inl raw => simp only [shallowClone]; exact World.get_put_self ..
+      | stat sid l => simp only [shallowClone]; exact World.get_put_self ..
+      | heap a l =>
+        obtain ⟨b, hb, _⟩ := g.ok
+        simp only [shallowClone, Heap.retain, hb]; exact World.get_put_self ..
+    have hgs : (step rf w (.clone d s)).1.get s = some r := by rw [hfr.1]; exact hg
+    have h2 := hfr.2
+    rw [ht] at h2
+    unfold World.text at h2 ⊢
+    rw [hgs] at h2; rw [hgd]; exact h2
 
 end LS.C01
